@@ -402,3 +402,43 @@ func tailStrC16(s string) string {
 	}
 	return s
 }
+
+// TestVerifC16Blank: a function declared with the blank name has a body like any other
+// (`func _() { ... }` is legal Go and is type-checked); one tree, one key per command.
+func TestVerifC16Blank(t *testing.T) {
+	r := vh.New("blank-function")
+	defer r.Write()
+	scratch := vh.Env("SCRATCH")
+	sfw := filepath.Join(vh.Env("UNITDIR"), "sfw")
+	if _, err := os.Stat(sfw); err != nil {
+		r.Fail("sfw binary missing: %v", err)
+		return
+	}
+	root := filepath.Join(scratch, "blank", "target")
+	os.MkdirAll(root, 0o755)
+	src := "package blank\n\nfunc Named(a int) int {\n\treturn a + 1\n}\n\nfunc _(a int) int {\n\tif a > 2 {\n\t\treturn a * 7\n\t}\n\treturn a\n}\n"
+	file := filepath.Join(root, "b.go")
+	os.WriteFile(file, []byte(src), 0o644)
+	cmd := exec.Command(sfw, "check", "--no-sandbox", root)
+	var stdout strings.Builder
+	cmd.Stdout = &stdout
+	cmd.Run()
+	r.Eval()
+	r.Nontrivial("blank-function/check")
+	var out []models.FileOutput
+	json.Unmarshal([]byte(stdout.String()), &out)
+	found := false
+	var listed []string
+	for _, fo := range out {
+		for _, fn := range fo.Functions {
+			listed = append(listed, fmt.Sprintf("%s@%d", fn.Function, fn.Line))
+			if fn.Line == 7 {
+				found = true
+			}
+		}
+	}
+	if !found {
+		r.Violate("blank-function/check", fmt.Sprintf("`func _(a int) int { ... }` at b.go:7 has a body but is not fingerprinted (report lists %v)", listed), nil)
+	}
+}
+
